@@ -58,11 +58,13 @@ fn json_string(s: &str, escape_non_ascii: bool) -> String {
     out
 }
 
-/// Render an abstract JSON tree to JSON text.  `style`: bit 0 = escape non-ASCII as \uXXXX (surrogate pairs),
-/// bit 1 = insignificant whitespace.  "broken" nodes render as text that is not JSON.
-pub fn render_json(j: &J, style: u32, out: &mut String) {
-    let esc = style & 1 == 1;
-    let ws = if style & 2 == 2 { " \n\t" } else { "" };
+/// Insignificant JSON whitespace (RFC 8259 section 2) named by the wire form's `ws` field.
+pub fn ws_chars(ws: &str) -> &'static str {
+    match ws { "none" | "" => "", "sp" => " ", "tab" => "\t", "cr" => "\r", "lf" => "\n", "mix" => "\n \t\r\n", other => vh::io::tool_error(&format!("unknown whitespace kind {other}")) }
+}
+/// Render an abstract JSON tree to JSON text.  `esc`: escape non-ASCII as \uXXXX (surrogate pairs);
+/// `ws`: whitespace put around every structural character.  "broken" nodes render as text that is not JSON.
+pub fn render_json(j: &J, esc: bool, ws: &str, out: &mut String) {
     match j["k"].as_str().unwrap_or("?") {
         "str" => out.push_str(&json_string(&atom_text(j["a"].as_str().unwrap()), esc)),
         "int" => out.push_str(&j["n"].as_i64().unwrap().to_string()),
@@ -71,9 +73,9 @@ pub fn render_json(j: &J, style: u32, out: &mut String) {
         "list" => {
             out.push('[');
             for (i, x) in j["c"].as_array().unwrap().iter().enumerate() {
-                if i > 0 { out.push(','); }
+                if i > 0 { out.push_str(ws); out.push(','); }
                 out.push_str(ws);
-                render_json(x, style, out);
+                render_json(x, esc, ws, out);
             }
             out.push_str(ws);
             out.push(']');
@@ -81,12 +83,13 @@ pub fn render_json(j: &J, style: u32, out: &mut String) {
         "obj" => {
             out.push('{');
             for (i, m) in j["c"].as_array().unwrap().iter().enumerate() {
-                if i > 0 { out.push(','); }
+                if i > 0 { out.push_str(ws); out.push(','); }
                 out.push_str(ws);
                 out.push_str(&json_string(&atom_text(m["key"].as_str().unwrap()), esc));
+                out.push_str(ws);
                 out.push(':');
                 out.push_str(ws);
-                render_json(&m["val"], style, out);
+                render_json(&m["val"], esc, ws, out);
             }
             out.push_str(ws);
             out.push('}');
@@ -101,9 +104,12 @@ pub fn render_json(j: &J, style: u32, out: &mut String) {
         other => vh::io::tool_error(&format!("unknown node kind {other}")),
     }
 }
-pub fn json_text(j: &J, style: u32) -> String {
-    let mut s = String::new();
-    render_json(j, style, &mut s);
+/// One JSON text: leading whitespace, the value, trailing whitespace.  style bit 0 = \u escapes.
+pub fn json_text(j: &J, style: u32, ws: &str) -> String {
+    let w = ws_chars(ws);
+    let mut s = String::from(w);
+    render_json(j, style & 1 == 1, w, &mut s);
+    s.push_str(w);
     s
 }
 
